@@ -562,7 +562,68 @@ def shard(seed, n_examples):
     return stats
 
 
+def sig_case(case):
+    """The signature of a function's equation set ("a different signature whenever the equations differ"): two sorted line lists
+    that differ in one line - the same digits with the token boundary moved (coefficient 11 on wire 2 / coefficient 1 on wire
+    12), a wire renamed, a coefficient changed, a line added - have different signatures; equal lists have equal ones."""
+    sys.path.insert(0, backends.REPO) if backends.REPO not in sys.path else None
+    import importlib
+    qs = importlib.import_module("pysnark.qaptools.qapsplit")
+    a, b = case["a"], case["b"]
+    ha, hb = qs.qaphash(sorted(a)), qs.qaphash(sorted(b))
+    if sorted(a) == sorted(b):
+        return None if ha == hb else "equal equation sets have signatures %s and %s" % (ha, hb)
+    if ha == hb:
+        return "the equation sets %r and %r differ but have the same signature %s" % (a, b, ha)
+    return None
+
+
+def sig_shard(seed, n_examples):
+    stats = core.Stats()
+
+    @given(st.data())
+    def test(data):
+        draw = data.draw
+        def line():
+            def term():
+                return "%d %d" % (draw(st.integers(1, 130)), draw(st.integers(1, 130)))
+            return " ".join(term() for _ in range(draw(st.integers(1, 2)))) + " * " + term() + " = " + term() + " ."
+        a = [line() for _ in range(draw(st.integers(1, 4)))]
+        b = list(a)
+        k = draw(st.integers(0, 4))
+        i = draw(st.integers(0, len(a) - 1))
+        toks = b[i].split(" ")
+        nums = [j for j in range(len(toks) - 1) if toks[j].isdigit() and toks[j + 1].isdigit()]
+        if k == 0 and nums:
+            # move one digit across a token boundary: "11 2" <-> "1 12"
+            j = draw(st.sampled_from(nums))
+            if len(toks[j]) > 1:
+                toks[j], toks[j + 1] = toks[j][:-1], toks[j][-1] + toks[j + 1]
+            else:
+                toks[j], toks[j + 1] = toks[j] + toks[j + 1][0], toks[j + 1][1:] or "0"
+            b[i] = " ".join(toks)
+        elif k == 1 and nums:
+            j = draw(st.sampled_from(nums))
+            toks[j] = str(int(toks[j]) + 1)
+            b[i] = " ".join(toks)
+        elif k == 2:
+            b.append(line())
+        elif k == 3:
+            b = list(reversed(a))
+        case = {"part": "signature", "a": a, "b": b}
+        msg = sig_case(case)
+        stats.case(case, sorted(a) != sorted(b), ("signature:" + ["boundary-moved", "number-changed", "line-added", "reordered", "same"][k],), sample_cap=1)
+        if msg:
+            raise core.Violation(case, msg, "signature")
+    v = core.drive(test, seed, n_examples)
+    if v is not None:
+        stats.violations.append({"case": v.case, "msg": v.msg, "key": v.key})
+    return stats
+
+
 def replay(case):
+    if case.get("part") == "signature":
+        return sig_case(case)
     tmp = tempfile.mkdtemp(prefix="verif-c12-")
     try:
         return judge(case["prog"], tmp)[0]
@@ -577,3 +638,4 @@ def run(ctx):
                        "the child wraps backend.privval/pubval/add_constraint to log the independent trace"]
     n = 80 if ctx.tier == "quick" else 1000
     ctx.stats = core.run_shards("harness.checks.c12", "shard", [dict(seed=ctx.seed * 1000 + i, n_examples=n) for i in range(16)])
+    ctx.stats.merge_json(core.run_shards("harness.checks.c12", "sig_shard", [dict(seed=ctx.seed * 1000 + 300 + i, n_examples=200 if ctx.tier == "quick" else 5000) for i in range(4)]).to_json())
